@@ -56,6 +56,21 @@ example :
     (tfRun (TextField.insertString TextField.new [0, 1])
       [.key bs, .key ce, .key (ty 7), .key cb, .key (ty 8)]).value = [0, 8, 7] := by decide
 
+/-- `cursor_column` (TextField): `Draw` puts the cursor in the column equal to the display width of
+the graphemes before the cursor, computed in `uint16` like every vxfw column. -/
+theorem textfield_cursor_column {G : Type} (width : G → Nat) (tf : TextField.TF G) :
+    TextField.drawCursorCol width tf = UInt16.ofNat (widthSum width (tf.value.take tf.cursor)) :=
+  drawCursorCol_eq width tf
+
+/-- `cursor_column` (TextField) in natural numbers: while the text before the cursor is narrower
+than 65536 columns (in particular while the text fits any widget) the drawn cursor column *is* the
+display width of the ideal editor's text before its cursor. -/
+theorem textfield_cursor_column_nat {G : Type} (width : G → Nat) (tf : TextField.TF G)
+    (hfit : widthSum width ((abs tf).text.take (abs tf).cursor) < 65536) :
+    (TextField.drawCursorCol width tf).toNat = widthSum width ((abs tf).text.take (abs tf).cursor) := by
+  rw [drawCursorCol_eq]
+  exact UInt16.toNat_ofNat_of_lt' hfit
+
 /-- `textinput_refines` (one step): from a state with the cursor within the content and a
 non-negative scroll offset, every call of the textinput API (`Update` with any event, `SetContent`,
 `Draw` into a window of any width with any prompt) returns — no index panic, no hang —, keeps the
